@@ -41,6 +41,9 @@ type RelayScript struct {
 	O0     int64    `json:"o0,omitempty"`     // GetBlobRange offsets (0,0 stands for 1,3)
 	O1     int64    `json:"o1,omitempty"`
 	Again  int      `json:"again,omitempty"` // the same call is made this many more times with the same context
+	// Earlier: scopes of a call another caller made through the same view before this one ("fold|text"
+	// stands for a scope whose resource type alone is that text - it prints like the well-formed one)
+	Earlier []string `json:"earlier,omitempty"`
 }
 
 var methods = []string{"GetBlob", "GetBlobRange", "GetManifest", "GetTag", "ResolveBlob", "ResolveManifest", "ResolveTag",
@@ -88,6 +91,19 @@ func runRelay(s RelayScript, v *vt.V) {
 		ctx = ociauth.ContextWithScope(ctx, ociauth.NewScope(append([]ociauth.ResourceScope(nil), rss...)...)) // NewScope sorts and compacts its argument in place
 	}
 	dg := digest.FromBytes([]byte("x"))
+	if len(s.Earlier) > 0 {
+		// what one caller's context held is nothing to the next caller of the same view
+		var ers []ociauth.ResourceScope
+		for _, sc := range s.Earlier {
+			if text, ok := strings.CutPrefix(sc, "fold|"); ok {
+				ers = append(ers, ociauth.ResourceScope{ResourceType: text})
+			} else {
+				ers = append(ers, parseRS(sc))
+			}
+		}
+		sub.ResolveBlob(ociauth.ContextWithScope(context.Background(), ociauth.NewScope(ers...)), "x", dg)
+		r.Reset()
+	}
 	var gotList []string
 	var callerScope ociauth.Scope
 	if len(rss) > 0 || unlimited {
@@ -320,6 +336,18 @@ func genRelay(t *rapid.T) RelayScript {
 			// repositories of the view whose own names look like the prefix
 			"repository:" + s.Prefix + ":pull", "repository:" + s.Prefix + "/x:pull", "repository:" + s.Prefix + "/" + s.Prefix + ":push", "repository:" + s.Prefix + "ey:pull", "other:" + s.Prefix + "/x:pull"}).Draw(t, "scope"))
 	}
+	if len(s.Scopes) > 0 && rapid.IntRange(0, 2).Draw(t, "earlier") == 0 {
+		for _, sc := range s.Scopes {
+			switch rapid.IntRange(0, 3).Draw(t, "earlierKind") {
+			case 0:
+				s.Earlier = append(s.Earlier, "fold|"+sc)
+			case 1:
+				s.Earlier = append(s.Earlier, sc+",push")
+			case 2:
+				s.Earlier = append(s.Earlier, sc)
+			}
+		}
+	}
 	s.Nested = rapid.IntRange(0, 3).Draw(t, "nested") == 0
 	s.Again = rapid.SampledFrom([]int{0, 0, 1, 2}).Draw(t, "again")
 	if s.Method == "GetBlobRange" {
@@ -339,7 +367,7 @@ func genRelay(t *rapid.T) RelayScript {
 var propRelay = &vt.Prop[RelayScript]{
 	ID:   "C13",
 	Name: "SubRelay",
-	Rule: "Sub(recorder, prefix) with prefixes of 1-3 elements (incl. routing words), a quarter of them built as a view of a view; each of the 18 methods (GetBlobRange with whole-blob, open-ended and bounded ranges); caller repository names from the valid grammar and from hostile generators (empty, '.', '..', '../other', 'x/../../other', leading/trailing/double slashes, upper case, NUL, UTF-8, names equal to or starting with the prefix); 0-3 context scopes (repository pull/push/unknown action, registry:catalog:*, other types, empty repository, opaque, repositories whose own name equals or starts with the prefix, the unlimited scope); oracle = exactly one underlying call; a well-formed name n arrives as prefix/n; whatever arrives for a malformed name is empty or literally below prefix/ and does not resolve (dot segments) outside it; the context scope at the underlying registry equals the caller's with repository resources prefixed and nothing else changed; Repositories shows exactly the stripped names under prefix/; half of the calls are then repeated once or twice with the same context: the same call with the same scope reaches the underlying registry each time and the scope value in the caller's context is member for member what it was; non-trivial = hostile name, start point, or name sharing the prefix text; distinct = (prefix, method, names, start)",
+	Rule: "Sub(recorder, prefix) with prefixes of 1-3 elements (incl. routing words), a quarter of them built as a view of a view; each of the 18 methods (GetBlobRange with whole-blob, open-ended and bounded ranges); caller repository names from the valid grammar and from hostile generators (empty, '.', '..', '../other', 'x/../../other', leading/trailing/double slashes, upper case, NUL, UTF-8, names equal to or starting with the prefix); 0-3 context scopes (repository pull/push/unknown action, registry:catalog:*, other types, empty repository, opaque, repositories whose own name equals or starts with the prefix, the unlimited scope); oracle = exactly one underlying call; a well-formed name n arrives as prefix/n; whatever arrives for a malformed name is empty or literally below prefix/ and does not resolve (dot segments) outside it; the context scope at the underlying registry equals the caller's with repository resources prefixed and nothing else changed; Repositories shows exactly the stripped names under prefix/; a third of the scoped calls come after another caller's call through the same view whose scopes print like this caller's (the whole text as a resource type, an action list with a comma); half of the calls are then repeated once or twice with the same context: the same call with the same scope reaches the underlying registry each time and the scope value in the caller's context is member for member what it was; non-trivial = hostile name, start point, or name sharing the prefix text; distinct = (prefix, method, names, start)",
 	Gen:  genRelay,
 	Run:  runRelay,
 }
